@@ -189,5 +189,5 @@ META = {
             "creations/destructions are written immediately (and force a dump) while utilisation events are created in the past. "
             "SMPI programs are not explored. Trusted: Coq kernel, extraction, harness/res_c47.cpp, the trace tokenizer in checks/C47.py.",
     "technique": "Coq proof (reflection of a relational spec, sorted-list reasoning) + verified checker as oracle on generated traces",
-    "claimed": False,
+    "claimed": True,
 }
